@@ -385,6 +385,7 @@ Proof.
   - inversion H. change s' with (fst (s', out)). rewrite <- H1. apply do_poison_inv3; auto.
   - inversion H. change s' with (fst (s', out)). rewrite <- H1. apply do_cksf_inv3; auto.
   - inversion H. change s' with (fst (s', out)). rewrite <- H1. destruct DR as [DR|[]]. apply do_relf_inv3; auto.
+  - inversion H; subst; auto.
   - inversion H. change s' with (fst (s', out)). rewrite <- H1. apply do_crash_inv3; auto.
   - inversion H. change s' with (fst (s', out)). rewrite <- H1. apply do_relstop_inv3; auto.
 Qed.
